@@ -33,9 +33,10 @@
      per-vector validation shared by HnswVectorIndex::add_vector and parallel_insert_batch (all
      components finite; norm_sq in [0.98,1.02] for Cosine/InnerProduct).  C02 assumes
      `norm_idem` (Proofs/BackendProofs.v): c_normalize v = Some w -> c_normalize w = Some w.
-   * The branch "index rejects the vector AFTER the WAL append" (compensating Delete frame) IS
-     modelled (do_insert, `c_accepts w = false`); it is defect #1 of DESIGN.md §4 and is exercised by
-     C03, not by C02 histories.
+   * insert pre-flights the index's acceptance checks (`c_accepts`) BEFORE the WAL append (/repo commit
+     ca4513e, repair of defect #1 of DESIGN.md §4): a refused vector gives `OErrRejected` and changes
+     nothing.  The old branch "index.add_vector fails AFTER the append -> compensating Delete frame" still
+     exists in the code and in `do_insert`; it tests the same predicate and is therefore unreachable.
    * A snapshot stores `sn_docs : list (id * doc)` — the code's two parallel lists
      (documents, metadata) are produced by one iteration over the same slots and are re-joined on
      load; validate_alignment therefore reduces to "ids unique".
@@ -102,7 +103,7 @@ Definition dir := list (name * file).
 Inductive rerr :=
 | RZeroDim | RNoManifest | RBadManifest | RSnapshot | RSnapDim | RSnapMetric
 | RMissingSegment | RBadSegment | RCorruptFrames | REntryDim | RNormalize | RCapacity
-| RIndexReject | RUnmodelled.
+| RIndexReject | RCoverageGap | RUnmodelled.
 
 Inductive result (A : Type) := Ok (a : A) | Err (e : rerr).
 Arguments Ok {A} a.
@@ -311,6 +312,7 @@ Definition with_since (s : state) (n : N) : state :=
 Inductive outcome :=
 | OOk | OBool (b : bool) | OCount (n : N)
 | OErrInvalid          (* dimension mismatch / zero norm: refused before anything is logged *)
+| OErrRejected         (* pre-flight: non-finite component or normalised norm out of tolerance; nothing logged *)
 | OErrFull             (* HNSW index full *)
 | OErrIndex            (* index rejected the vector after the WAL append (defect #1 branch) *)
 | OErrIo               (* MANIFEST missing / unreadable, snapshot could not be built *)
@@ -437,6 +439,8 @@ Definition do_insert (c : cfg) (s : state) (id : N) (v : vec) (m : meta) : state
   match normalize_if_needed c v with
   | None => (s, OErrInvalid, [])
   | Some w =>
+      (* pre-flight of the index's acceptance checks, before anything is logged *)
+      if negb (c_accepts c w) then (s, OErrRejected, []) else
       (* loop: index full -> compact_tombstones once (slots := live) -> retry -> "HNSW index full" *)
       let live := size (st_store s) in
       let s0 := if (c_capacity c <=? st_slots s) && (live <? st_slots s) then with_slots s live else s in
@@ -577,43 +581,47 @@ Definition apply_entry (m : store) (e : entry) : store :=
   | Upd => upd_meta m (e_id e) (e_meta e)
   end.
 
-(* body of `for entry in entries` : acc = (documents, max_wal_seq) *)
-Definition replay_entry (c : cfg) (sseq : N) (acc : store * N) (e : entry) : result (store * N) :=
-  let '(m, mx) := acc in
+(* body of `for entry in entries` : acc = (documents, max_wal_seq, retained_gap_entries).
+   `committed` = manifest.latest_snapshot_wal_seq.unwrap_or(0); an entry with
+   snapshot_last_wal_seq < seq <= committed is counted before the skip logic (/repo commit b87f300). *)
+Definition replay_entry (c : cfg) (sseq committed : N) (acc : store * N * N) (e : entry) : result (store * N * N) :=
+  let '(m, mx, gap) := acc in
   if e_seq e =? 0 then Err RUnmodelled else
   let mx' := N.max mx (e_seq e) in
-  if (0 <? sseq) && (0 <? e_seq e) && (e_seq e <=? sseq) then Ok (m, mx')
+  let gap' := if (sseq <? e_seq e) && (e_seq e <=? committed) then gap + 1 else gap in
+  if (0 <? sseq) && (0 <? e_seq e) && (e_seq e <=? sseq) then Ok (m, mx', gap')
   else match e_op e with
-       | Ins => if len (e_vec e) =? c_dim c then Ok (apply_entry m e, mx') else Err REntryDim
-       | _ => Ok (apply_entry m e, mx')
+       | Ins => if len (e_vec e) =? c_dim c then Ok (apply_entry m e, mx', gap') else Err REntryDim
+       | _ => Ok (apply_entry m e, mx', gap')
        end.
 
-Fixpoint replay_entries (c : cfg) (sseq : N) (acc : store * N) (es : list entry) : result (store * N) :=
+Fixpoint replay_entries (c : cfg) (sseq committed : N) (acc : store * N * N) (es : list entry)
+  : result (store * N * N) :=
   match es with
   | [] => Ok acc
-  | e :: r => match replay_entry c sseq acc e with
-              | Ok acc' => replay_entries c sseq acc' r
+  | e :: r => match replay_entry c sseq committed acc e with
+              | Ok acc' => replay_entries c sseq committed acc' r
               | Err x => Err x
               end
   end.
 
 (* `for wal_name in &manifest.wal_segments` *)
-Fixpoint replay_segments (c : cfg) (md : mode) (d : dir) (sseq : N) (acc : store * N) (segs : list name)
-  : result (store * N) :=
+Fixpoint replay_segments (c : cfg) (md : mode) (d : dir) (sseq committed : N) (acc : store * N * N)
+  (segs : list name) : result (store * N * N) :=
   match segs with
   | [] => Ok acc
   | nm :: rest =>
       match dget d nm with
       | None => match md with
                 | Strict => Err RMissingSegment
-                | BestEffort => replay_segments c md d sseq acc rest
+                | BestEffort => replay_segments c md d sseq committed acc rest
                 end
       | Some (FWal frs t) =>
           let '(es, corrupted) := read_all frs t in
           match md, 0 <? corrupted with
           | Strict, true => Err RCorruptFrames
-          | _, _ => match replay_entries c sseq acc es with
-                    | Ok acc' => replay_segments c md d sseq acc' rest
+          | _, _ => match replay_entries c sseq committed acc es with
+                    | Ok acc' => replay_segments c md d sseq committed acc' rest
                     | Err x => Err x
                     end
           end
@@ -661,8 +669,16 @@ Definition recover_read (c : cfg) (md : mode) (d : dir) : result (store * N * ma
       match snap with
       | Err x => Err x
       | Ok (docs0, sseq) =>
-          match replay_segments c md d sseq (docs0, sseq) (m_segments m) with
-          | Ok (docs, mx) => Ok (docs, mx, m)
+          let committed := opt_or0 (m_snapshot_seq m) in
+          match replay_segments c md d sseq committed (docs0, sseq, 0) (m_segments m) with
+          | Ok (docs, mx, gap) =>
+              (* strict: the loaded state is older than the committed snapshot (fallback / none) and
+                 not every entry in between is still retained *)
+              match md with
+              | Strict => if (sseq <? committed) && negb (gap =? committed - sseq) then Err RCoverageGap
+                          else Ok (docs, mx, m)
+              | BestEffort => Ok (docs, mx, m)
+              end
           | Err x => Err x
           end
       end
@@ -729,8 +745,9 @@ Definition step_state (c : cfg) (s : state) (o : op) : state := fst (fst (step c
 
 Definition run (c : cfg) (ops : list op) : state := fold_left (step_state c) ops (init c).
 
-(* The input class outside C02 (defect #1, see header): some insert whose normalised vector the index
-   refuses after the append.  `ops_accepted c ops = true` excludes it. *)
+(* Inserts whose normalised vector the index accepts.  Before /repo commit ca4513e the complement was the
+   input class of defect #1 and C02 had to exclude it; since the pre-flight nothing depends on it any more
+   (kept for the C03 statements). *)
 Definition op_accepted (c : cfg) (o : op) : bool :=
   match o with
   | OInsert _ v _ => match normalize_if_needed c v with Some w => c_accepts c w | None => true end
@@ -764,7 +781,7 @@ Definition classify (o : outcome) : oclass :=
   match o with
   | OOk => KOk | OBool b => KBool b | OCount n => KCount n
   | OErrInvalid => KInvalid | OErrFull => KFull
-  | OErrIndex | OErrIo | OErrRecover _ => KErr
+  | OErrRejected | OErrIndex | OErrIo | OErrRecover _ => KErr
   end.
 
 Definition oclass_eqb (a b : oclass) : bool :=
